@@ -43,7 +43,7 @@ def _cstr8(s):
 
 
 # the sample_type in force (module-level so that every record writer and build() agree); set_layout() switches it for one file
-_layout = {"sample_type": SAMPLE_TYPE, "task_event": None}
+_layout = {"sample_type": SAMPLE_TYPE, "task_event": None, "id_all": True}
 
 
 def set_layout(cpu=True, period=True, ip=True, callchain=True):
@@ -59,6 +59,13 @@ def set_layout(cpu=True, period=True, ip=True, callchain=True):
         st |= S_PERIOD
     _layout["sample_type"] = st
     _layout["task_event"] = None
+    _layout["id_all"] = True
+
+
+def set_id_all(flag):
+    """flag = False: the attribute has no sample_id_all bit (a legal, older encoding): FORK / EXIT / COMM / MMAP2 records end without the id trailer,
+    so only FORK and EXIT (time in the record body) and SAMPLE records carry a time"""
+    _layout["id_all"] = bool(flag)
 
 
 def set_task_event(k):
@@ -74,6 +81,8 @@ def set_task_event(k):
 
 def _trailer(pid, tid, time, cpu=0, main=False):
     # sample_id_all trailer for TID | TIME [| CPU] [| IDENTIFIER]; task records carry the id of the attribute chosen by set_task_event
+    if not _layout["id_all"]:
+        return b""
     b = struct.pack("<IIQ", pid, tid, time)
     if _layout["sample_type"] & S_CPU:
         b += struct.pack("<II", cpu, 0)
@@ -144,7 +153,7 @@ def build(records, arch="x86_64", first_time=None, last_time=None, period=100000
                        period,           # sample_period
                        _layout["sample_type"],
                        0,                # read_format
-                       F_DISABLED | F_INHERIT | F_MMAP | F_COMM | F_TASK | F_SAMPLE_ID_ALL | F_MMAP2 | F_COMM_EXEC | (F_CONTEXT_SWITCH if context_switch else 0),
+                       F_DISABLED | F_INHERIT | F_MMAP | F_COMM | F_TASK | (F_SAMPLE_ID_ALL if _layout["id_all"] else 0) | F_MMAP2 | F_COMM_EXEC | (F_CONTEXT_SWITCH if context_switch else 0),
                        0, 0,             # wakeup, bp_type
                        0, 0,             # config1, config2
                        0,                # branch_sample_type
